@@ -7,4 +7,5 @@ unset RUSTFLAGS CARGO_ENCODED_RUSTFLAGS CARGO_BUILD_RUSTFLAGS 2>/dev/null || tru
 mkdir -p .build evidence replays
 (cd harness && cargo build --release --offline 2>&1 | tail -3)
 (cd /repo && CARGO_TARGET_DIR=/verif/.build/bin cargo build --release --offline -p mos 2>&1 | tail -3)
+gcc -shared -fPIC -O2 -o .build/getrandom_shim.so cli/getrandom_shim.c
 echo "setup done"
